@@ -463,8 +463,13 @@ fn serialise_router_advertisement(a: &RtrAdvertisement) -> Vec<u8> {
                     _ => 5, /* 32, the configuration parser only lets valid lengths through */
                 };
                 v.serialise((scaled_lifetime << 3) | plc);
+                /* The bits of the prefix beyond the prefix length must be zero. */
+                let mask = u128::MAX
+                    .checked_shl(128 - u32::from((*prefixlen).min(128)))
+                    .unwrap_or(0);
+                let masked = std::net::Ipv6Addr::from(u128::from(*prefix) & mask);
                 for i in 0..12 {
-                    v.serialise(prefix.octets()[i])
+                    v.serialise(masked.octets()[i])
                 }
             }
             NDOptionValue::CaptivePortal(url) => {
